@@ -20,10 +20,12 @@ type zzFieldSpec struct {
 }
 
 type zzArgSpec struct {
-	name   string
-	typ    string
-	hasDef bool
-	def    interface{}
+	name    string
+	typ     string
+	hasDef  bool
+	def     interface{}
+	nonNull bool
+	list    bool
 }
 
 type zzTypeSpec struct {
@@ -41,6 +43,8 @@ var zzZooTypes = []zzTypeSpec{
 		{name: "e", typ: "String", args: []zzArgSpec{{name: "c", typ: "Color"}}},
 		{name: "s", typ: "String", args: []zzArgSpec{{name: "t", typ: "String"}, {name: "u", typ: "String"}}},
 		{name: "io", typ: "String", args: []zzArgSpec{{name: "in", typ: "In"}}},
+		{name: "r", typ: "Int", args: []zzArgSpec{{name: "x", typ: "Int", nonNull: true}}},
+		{name: "li", typ: "Int", args: []zzArgSpec{{name: "l", typ: "Int", list: true}}},
 		{name: "o", typ: "Obj"},
 		{name: "onn", typ: "Obj", nonNull: true},
 		{name: "ol", typ: "Obj", list: true},
@@ -250,7 +254,14 @@ func zzBuildSchema(w *zzWorld) Schema {
 				}
 				args := FieldConfigArgument{}
 				for _, a := range f.args {
-					ac := &ArgumentConfig{Type: named[a.typ].(Input)}
+					var at Input = named[a.typ].(Input)
+					if a.list {
+						at = NewList(at)
+					}
+					if a.nonNull {
+						at = NewNonNull(at)
+					}
+					ac := &ArgumentConfig{Type: at}
 					if a.hasDef {
 						ac.DefaultValue = a.def
 					}
